@@ -12,18 +12,6 @@ def pairJ (p : Int × Int) : Json := jArr [toJson p.1, toJson p.2]
 def geneOfJson (j : Json) : R Gene := do return ⟨← asInt (← idx j 0), ← asInt (← idx j 1)⟩
 def pairOfJson (j : Json) : R (Int × Int) := do return (← asInt (← idx j 0), ← asInt (← idx j 1))
 
-/-- every base of `l` lies in the (possibly origin-crossing, `a.1 < 0`) area `a` of a record of
-    length `L` -/
-def locInArea (L : Int) (a : Int × Int) (l : Loc) : Bool :=
-  l.parts.all fun p =>
-    decide (p.lo < p.hi) &&
-    (if a.1 ≥ 0 then decide (a.1 ≤ p.lo) && decide (p.hi ≤ a.2)
-     else (decide (a.1 + L ≤ p.lo) && decide (p.hi ≤ L)) || (decide (0 ≤ p.lo) && decide (p.hi ≤ a.2)))
-
-/-- no base of `l` lies in the core `[start+pad, end−pad)` of any gene -/
-def locAvoids (genes : List Gene) (pad : Int) (l : Loc) : Bool :=
-  l.parts.all fun p => areaAvoids genes pad (p.lo, p.hi)
-
 def scan (j : Json) : R Json := do
   let seq := (← strF j "seq").toList
   let fwd ← boolF j "fwd"
